@@ -471,7 +471,7 @@ class BinarySurrogate(GeneralSurrogate):
         singleT, singleG = len(T) == 1, len(gExtra) == 1
         if broadcast:
             Tsize, gsize = len(T), len(gExtra)
-            T = np.tile(T, (gsize,1))
+            T = np.tile(T, gsize)
             gExtra = np.repeat(gExtra, Tsize, axis=0)
         return T, gExtra, singleT, singleG
     
